@@ -362,7 +362,7 @@ func cmdCheck(args []string) {
 		r := results[o]
 		isKnown := false
 		for _, kf := range known {
-			if kf.Kind == "finding" && kf.Property == *prop && kf.Obligation == o.Name {
+			if kf.Kind == "finding" && (kf.Property == *prop || kf.Property == "*") && kf.Obligation == o.Name {
 				isKnown = true
 				fmt.Printf("KNOWN-FINDING: property=%s %s: %s\n", *prop, o.Name, kf.Class)
 				knownHit = append(knownHit, o.Name)
@@ -393,7 +393,7 @@ func cmdCheck(args []string) {
 	// known findings must keep failing: a listed finding whose obligation now passes is reported (stale entry)
 	for _, kf := range known {
 		if kf.Kind != "finding" || kf.Property != *prop {
-			continue
+			continue // property=* entries are only reported where they fail
 		}
 		hit := false
 		for _, k := range knownHit {
